@@ -158,6 +158,27 @@ func runC09(c *Ctx, si interface{}) {
 	if R > 2000 {
 		c.Probe("generation_with_more_than_2000_reads", 1)
 	}
+	// a long password drawn from a random tape cannot contain a run of 64 identical characters
+	// (probability below length * 2^-63 for any alphabet of two or more characters): such a run
+	// means those positions were not drawn from the source (an unfilled buffer decodes to one index)
+	if s.Char != nil && pilot.Pw != nil && len(pilot.Pw.Tokens) >= 256 && len(modelChar(*s.Char).A) >= 2 {
+		run, best, at := 1, 1, 0
+		for i := 1; i < len(pilot.Pw.Tokens); i++ {
+			if pilot.Pw.Tokens[i].V == pilot.Pw.Tokens[i-1].V {
+				run++
+				if run > best {
+					best, at = run, i-run+1
+				}
+			} else {
+				run = 1
+			}
+		}
+		c.Probe("long_password_run_length_checked", 1)
+		if best >= 64 {
+			c.Violate("choices-without-source-bytes", "constant-run", "%s: positions %d..%d of the %d-character password are all %q although the source bytes are random: those choices were not drawn from the source", desc, at, at+best-1, len(pilot.Pw.Tokens), pilot.Pw.Tokens[at].V)
+			return
+		}
+	}
 	if R == 0 {
 		if outputs.Cmp(big.NewInt(1)) > 0 {
 			c.Violate("no-source-read", "", "%s generated %q without reading the random source although %s outputs are possible", desc, pilot.Pw.S, outputs)
